@@ -304,6 +304,9 @@ class CallMixin(object):
         raise SpecError('abstract contract %s needs ghost params' % c.name)
       env = dict(zip(names, args))
       env.update(kw)
+      from pvc.spec_eval import const_val
+      for dn, dv in (c.ghost.get('defaults') or {}).items():
+        env.setdefault(dn, const_val(dv))
     if isinstance(env, Exc):
       yield st, env
       return
